@@ -379,6 +379,67 @@ func runC02(res *Result, d *Driver, tier string, seed uint64) {
 		}
 	}
 
+	// ---- lookups at the kernel's link limit: chains of 36..42 links (all in the last component, or half of them in
+	// directory components): whenever the kernel resolves the name, the path presented must be the kernel's ----
+	{
+		cdir, err := os.MkdirTemp("", "verif-c02-chain-")
+		if err != nil {
+			fatal("mkdtemp: %v", err)
+		}
+		cdir, _ = filepath.EvalSymlinks(cdir)
+		defer os.RemoveAll(cdir)
+		os.MkdirAll(cdir+"/real/dir", 0755)
+		os.WriteFile(cdir+"/real/dir/target", []byte("t"), 0644)
+		for _, n := range []int{1, 8, 36, 38, 39, 40, 41, 42} {
+			for _, shape := range []string{"file-links", "dir-links-then-file-links"} {
+				base := fmt.Sprintf("%s/%s-%d", cdir, shape, n)
+				os.MkdirAll(base, 0755)
+				var name string
+				if shape == "file-links" {
+					for i := 1; i <= n; i++ {
+						t := fmt.Sprintf("l%d", i+1)
+						if i == n {
+							t = cdir + "/real/dir/target"
+						}
+						os.Symlink(t, fmt.Sprintf("%s/l%d", base, i))
+					}
+					name = base + "/l1"
+				} else {
+					// n/2 links to directories walked through one after the other, then n - n/2 links in the last component
+					h := n / 2
+					for i := 1; i <= h; i++ {
+						t := fmt.Sprintf("d%d", i+1)
+						if i == h {
+							t = cdir + "/real/dir"
+						}
+						os.Symlink(t, fmt.Sprintf("%s/d%d", base, i))
+					}
+					for i := 1; i <= n-h; i++ {
+						t := fmt.Sprintf("f%d", i+1)
+						if i == n-h {
+							t = "target"
+						}
+						os.Symlink(t, fmt.Sprintf("%s/real/dir/f%d-%s-%d", cdir, i, shape, n))
+						if i < n-h {
+							os.Remove(fmt.Sprintf("%s/real/dir/f%d-%s-%d", cdir, i, shape, n))
+							os.Symlink(fmt.Sprintf("f%d-%s-%d", i+1, shape, n), fmt.Sprintf("%s/real/dir/f%d-%s-%d", cdir, i, shape, n))
+						}
+					}
+					if h == 0 {
+						continue
+					}
+					name = fmt.Sprintf("%s/d1/f1-%s-%d", base, shape, n)
+				}
+				impl := ptrace.VerifAbsPathAt(os.Getpid(), -100, name)
+				kern, ok := kernelResolve(unix.AT_FDCWD, name)
+				res.Case(fmt.Sprintf("chain %s %d", shape, n), true, "link-chain")
+				if ok && impl != kern {
+					res.Mismatch(Mismatch{Kind: "oracle", What: "a lookup that needs many link expansions (up to the 40 the kernel follows): the path presented to the policy is the kernel's resolution (C02_resolve_complete / C02_gen_link_budget)", Input: fmt.Sprintf("%s: %d links, open(%q)", shape, n, strings.TrimPrefix(name, cdir)), Impl: strings.TrimPrefix(impl, cdir), Model: "kernel: " + strings.TrimPrefix(kern, cdir), Oracle: "violates"})
+				}
+			}
+		}
+	}
+
 	// ---- part B: traced runs ----
 	f := newForest(rng, 8)
 	defer f.remove()
